@@ -142,10 +142,19 @@ def gen_thetas(rng, fcst, obs):
         return th
     if r < 0.8:
         return xr.DataArray(th, dims=["theta"], coords={"theta": th}) if len(set(th)) == len(th) else th
-    th2 = list(th)
-    if rng.random() < 0.3:
-        th2[rng.randrange(len(th2))] = NAN
-    return xr.DataArray(th2, dims=["theta"])
+    if r < 0.9:
+        th2 = list(th)
+        if rng.random() < 0.4:
+            th2[rng.randrange(len(th2))] = NAN
+        return xr.DataArray(th2, dims=["theta"])
+    # thetas varying along a data dimension (own storage order), some of them NaN: a NaN theta is a missing case
+    d = rng.choice(list(fcst.dims))
+    n = fcst.sizes[d]
+    labels = rng.sample([int(x) for x in fcst[d].values], n)
+    vals = [[NAN if rng.random() < 0.25 else float(rng.choice(pool)) for _ in range(n)] for _ in range(len(th))]
+    if rng.random() < 0.5:
+        return xr.DataArray(vals, dims=["theta", d], coords={d: labels})
+    return xr.DataArray(vals[0], dims=[d], coords={d: labels})
 
 
 def murphy_cases(ctx, n):
@@ -210,6 +219,8 @@ def gen_sources(rng, ragged=False):
             v = da.values.ravel()
             v[rng.randrange(v.size)] = rng.choice([INF, -INF])
             da.values = v.reshape(da.shape)
+        if rng.random() < 0.3:      # every source on its own set of coordinate labels (stations 0..n-1 shifted)
+            da = da.assign_coords({d: da[d].values + rng.randint(1, 3) for d in da.dims})
         fcsts.append(da)
     obs = gens.rand_da(rng, sizes, dims=gens.sub_dims(rng, sizes, p_drop=0.3, keep_at_least=0), den=2, bound=4, nan_p=0.15 if rng.random() < 0.3 else 0.0)
     return fcsts, obs
@@ -458,7 +469,9 @@ def oracle_grid(ctx):
 
 
 def oracle_means(ctx, n):
-    """murphy_score with NaN, sub-dimensional obs and reductions against the oracle (mean over the valid cases)"""
+    """murphy_score with NaN, sub-dimensional obs, fcst / obs / thetas in independent storage orders, thetas as list or as DataArray
+    (with NaN entries, possibly varying along a data dimension) and reductions, against the oracle: mean over the valid cases, where a
+    case is valid iff theta, fcst and obs are all present; labels, not positions, pair the values"""
     rng = ctx.rng
     C = S()
     for _ in range(n):
@@ -467,35 +480,225 @@ def oracle_means(ctx, n):
         na, nb = rng.randint(1, 3), rng.randint(1, 3)
         fv = [[None if rng.random() < 0.15 else Fr(rng.randint(-6, 6), 2) for _ in range(nb)] for _ in range(na)]
         ov = [None if rng.random() < 0.15 else Fr(rng.randint(-6, 6), 2) for _ in range(nb)]
-        F = xr.DataArray([[NAN if v is None else float(v) for v in row] for row in fv], dims=["a", "b"])
-        O = xr.DataArray([NAN if v is None else float(v) for v in ov], dims=["b"])
+        if rng.random() < 0.5:            # exact hits fcst == obs among the pairs
+            l = rng.randrange(nb)
+            ov[l] = fv[rng.randrange(na)][l]
+        pa, pb, pbo, pbt = (rng.sample(range(na), na), rng.sample(range(nb), nb), rng.sample(range(nb), nb), rng.sample(range(nb), nb))
+        fl = lambda v: NAN if v is None else float(v)      # noqa: E731
+        F = xr.DataArray([[fl(fv[i][l]) for l in pb] for i in pa], dims=["a", "b"], coords={"a": pa, "b": pb})
+        full = rng.random() < 0.5         # obs on both dimensions (own storage order) or on b only
+        if full:
+            ovf = [[None if rng.random() < 0.15 else (fv[i][l] if rng.random() < 0.2 else Fr(rng.randint(-6, 6), 2)) for l in range(nb)] for i in range(na)]
+            pao = rng.sample(range(na), na)
+            O = xr.DataArray([[fl(ovf[i][l]) for l in pbo] for i in pao], dims=["a", "b"], coords={"a": pao, "b": pbo})
+        else:
+            ovf = [list(ov) for _ in range(na)]
+            O = xr.DataArray([fl(ov[l]) for l in pbo], dims=["b"], coords={"b": pbo})
         fn, alpha, a = rng.choice(FUNCS), rng.choice(ALPHAS), rng.choice(HUBERS)
         th = sorted({Fr(rng.randint(-6, 6), 2) for _ in range(3)} | {v for row in fv for v in row if v is not None and rng.random() < 0.5})
+        mode = rng.choice(["list", "list", "da", "da_b"])
+        if mode == "list":
+            TH = [[t] * nb for t in th]
+            thetas = [float(t) for t in th]
+        elif mode == "da":
+            TH = [[None if rng.random() < 0.3 else t] * nb for t in th]
+            thetas = xr.DataArray([fl(row[0]) for row in TH], dims=["theta"])
+        else:
+            TH = [[None if rng.random() < 0.3 else t + Fr(rng.randint(-2, 2), 2) for _ in range(nb)] for t in th]
+            thetas = xr.DataArray([[fl(row[l]) for l in pbt] for row in TH], dims=["theta", "b"], coords={"b": pbt})
         red = rng.choice([None, ["a"], ["b"], ["a", "b"]])
         kw = {"huber_a": float(a)} if fn == "huber" else {}
         if red is not None:
             kw["reduce_dims"] = red
-        r = C.murphy_score(F, O, [float(t) for t in th], functional=fn, alpha=float(alpha), decomposition=True, **kw)
         rset = {"a", "b"} if red is None else set(red)
-        case = {"fcst": fv, "obs": ov, "thetas": th, "functional": fn, "alpha": alpha, "huber_a": a, "reduce_dims": red}
+        case = {"fcst[a][b]": fv, "obs[a][b]" if full else "obs[b]": ovf if full else ov, "thetas": [[None if x is None else x for x in row] for row in TH] if mode != "list" else th, "thetas_as": mode,
+                "functional": fn, "alpha": alpha, "huber_a": a, "reduce_dims": red, "storage_order": {"fcst.a": pa, "fcst.b": pb, "obs.b": pbo, "thetas.b": pbt}}
         ctx.case(("orcmean", repr(case)))
+        ctx.count("oracle_means:" + mode)
+        st, r = core.call_impl(C.murphy_score, F, O, thetas, functional=fn, alpha=float(alpha), decomposition=True, **kw)
+        if st != "ok":
+            ctx.violation("murphy_score raised on valid input", case, "values", r)
+            continue
+        bad = False
         for k, name in enumerate(NAMES):
-            got = r[name].transpose("theta", *[d for d in ("a", "b") if d not in rset]).values
-            for j, t in enumerate(th):
+            keep = [d for d in ("a", "b") if d not in rset]
+            da = r[name]
+            for d in keep:
+                da = da.sortby(d)
+            got = da.transpose("theta", *keep).values
+            for j in range(len(th)):
                 cell = {}
                 for i in range(na):
                     for l in range(nb):
                         key = tuple(x for x, d in ((i, "a"), (l, "b")) if d not in rset)
-                        if fv[i][l] is not None and ov[l] is not None:
-                            cell.setdefault(key, []).append(orc_es(fn, alpha, a, fv[i][l], ov[l], t)[k])
-                        else:
-                            cell.setdefault(key, [])
+                        cell.setdefault(key, [])
+                        if fv[i][l] is not None and ovf[i][l] is not None and TH[j][l] is not None:
+                            cell[key].append(orc_es(fn, alpha, a, fv[i][l], ovf[i][l], TH[j][l])[k])
                 for key, vals in cell.items():
                     g = got[(j,) + key]
                     want = sum(vals) / len(vals) if vals else NAN
                     if not core.close(g, want):
-                        ctx.violation("murphy_score mean differs from the mean elementary score over the valid cases", dict(case, variable=name, theta=t, cell=key), want, float(g))
-                        return
+                        ctx.violation("murphy_score mean differs from the mean elementary score over the valid (theta, fcst, obs all present) cases",
+                                      dict(case, variable=name, theta_index=j, cell=key), want, float(g))
+                        bad = True
+                        break
+                if bad:
+                    break
+            if bad:
+                break
+
+
+def _fr(x):
+    return Fr(float(x))
+
+
+def dtype_cases(ctx, n):
+    """forecasts / observations in a dtype that cannot hold the thetas exactly (integers with fractional thetas; float32 next to float64
+    thetas such as 0.1 vs float32(0.1)): the thetas count as given.  Oracle on the exact rationals of the inputs + model."""
+    rng = ctx.rng
+    C = S()
+    for i in range(n):
+        if not ctx.time_left():
+            break
+        m = rng.randint(1, 4)
+        mode = rng.choice(["int64", "int32", "float32", "float32"])
+        if mode.startswith("int"):
+            fv = np.array([rng.randint(-3, 3) for _ in range(m)], dtype=mode)
+            ov = np.array([rng.randint(-3, 3) for _ in range(m)], dtype=mode) if rng.random() < 0.5 else np.array([rng.randint(-6, 6) / 2 for _ in range(m)])
+            pool = [float(v) + dlt for v in list(fv) + list(ov) for dlt in (0.0, -0.25, 0.5, -0.5, 0.75)]
+        else:
+            dec = [0.1, 0.2, 0.3, 0.7, 1.1, -0.1, -0.9, 2.3]
+            fv = np.array([rng.choice(dec) for _ in range(m)], dtype="float32")
+            ov = np.array([rng.choice(dec) for _ in range(m)], dtype=rng.choice(["float32", "float64"]))
+            # the decimal as float64, the float32 value as float64, and their float64 neighbours
+            pool = []
+            for v in list(fv) + list(ov):
+                x32 = float(np.float32(v))
+                x64 = float(round(float(v), 1))
+                pool += [x32, x64, float(np.nextafter(x32, 9.0)), float(np.nextafter(x32, -9.0))]
+        th = sorted(set(rng.sample(pool, min(len(pool), rng.randint(1, 4)))))
+        fn, alpha, a = rng.choice(FUNCS), rng.choice(ALPHAS), rng.choice(HUBERS)
+        F = xr.DataArray(fv, dims=["x"])
+        O = xr.DataArray(ov, dims=["x"])
+        kw = {"huber_a": float(a)} if fn == "huber" else {}
+        red = rng.random() < 0.3
+        impl = core.call_impl(C.murphy_score, F, O, th, functional=fn, alpha=float(alpha), decomposition=True, **({} if red else {"preserve_dims": "all"}), **kw)
+        case = {"fn": "murphy_score", "fcst": [float(v) for v in fv], "fcst_dtype": str(fv.dtype), "obs": [float(v) for v in ov], "obs_dtype": str(ov.dtype),
+                "thetas": th, "functional": fn, "alpha": alpha, "huber_a": a, "mean": red}
+        ctx.case(("dtype", repr(case)))
+        ctx.count("dtype:" + mode)
+        if impl[0] != "ok":
+            ctx.violation("murphy_score raised on " + mode + " forecasts", case, "values", impl[1])
+            continue
+        for k, name in enumerate(NAMES):
+            got = np.asarray(impl[1][name].transpose("theta", ...).values, dtype=float)
+            for j, t in enumerate(th):
+                vals = [orc_es(fn, alpha, a, _fr(fv[q]), _fr(ov[q]), _fr(t))[k] for q in range(m)]
+                want = [sum(vals) / m] if red else vals
+                g = [float(got[j])] if red else [float(x) for x in got[j]]
+                if not all(core.close(x, w, tol=1e-6) for x, w in zip(g, want)):
+                    ctx.violation("murphy_score evaluates a theta other than the one requested (forecast dtype cannot hold it)", dict(case, variable=name, theta=t),
+                                  [float(w) for w in want], g)
+                    break
+            else:
+                continue
+            break
+        # the same case through the model (exact rationals of the given values)
+        if model_available(ctx):
+            F64, O64 = F.astype("float64"), O.astype("float64")
+            mt = model_murphy(ctx, F64, O64, th, fn, alpha, a if fn == "huber" else None, True, None, None if red else "all")
+            ok, why = compare_ds(impl, mt, True)
+            if not ok and "differ" in why:
+                # float32 arithmetic of the implementation: compare with the tolerance of the narrower type
+                ok = True
+                for pr in mt:
+                    dims, shape, qs = core.dec_arr(pr[1])
+                    xs = core.da_flat(impl[1][core.dec_str(pr[0])], dims)
+                    ok = ok and xs is not None and all(core.close(x, q, tol=1e-6) for x, q in zip(xs, qs))
+            if not ok:
+                ctx.tie_fail("murphy_score (" + mode + " forecasts) vs model: " + why, case, str(impl[1])[:200], str(mt)[:200])
+
+
+def fine_thetas(ctx, n):
+    """data with structure far below 1e-8 (dyadic multiples of 2^-30 around small magnitudes, so that every float operation of
+    murphy_thetas is exact): the returned thetas must be exactly the kinks, and the diagram must be affine between them"""
+    rng = ctx.rng
+    C = S()
+    u = Fr(1, 2 ** 30)
+    for i in range(n):
+        if not ctx.time_left():
+            break
+        m = rng.randint(1, 4)
+        base = rng.choice([0, 300, 5 * 2 ** 20])            # 0, ~2.8e-7, ~5e-3
+        k = rng.randint(1, 2)
+        fvals = [[(base + rng.randint(0, 40)) * u for _ in range(m)] for _ in range(k)]
+        ovals = [(base + rng.randint(0, 40)) * u for _ in range(m)]
+        fn = rng.choice(["expectile", "huber", "quantile"])
+        delta = rng.choice([None, Fr(0), u, 3 * u / 2])
+        a = rng.choice([5 * u, 2 * u, Fr(1, 2)])
+        fcsts = [xr.DataArray([float(v) for v in fv], dims=["x"]) for fv in fvals]
+        obs = xr.DataArray([float(v) for v in ovals], dims=["x"])
+        kw = {"huber_a": float(a)} if fn == "huber" else {}
+        if delta is not None:
+            kw["left_limit_delta"] = float(delta)
+        got = core.call_impl(C.murphy_thetas, fcsts, obs, fn, **kw)
+        need = {v for fv in fvals for v in fv} | set(ovals)
+        if fn == "huber":
+            need |= {o + a for o in ovals} | {o - a for o in ovals}
+        if fn != "quantile":
+            need |= {v - (delta or 0) for fv in fvals for v in fv}
+        case = {"fn": "murphy_thetas", "forecasts": [[float(v) for v in fv] for fv in fvals], "obs": [float(v) for v in ovals], "functional": fn,
+                "huber_a": float(a), "left_limit_delta": None if delta is None else float(delta), "unit": "values are multiples of 2**-30"}
+        ctx.case(("fine", repr(case)))
+        th = [Fr(float(x)) for x in got[1]] if got[0] == "ok" else None
+        if th != sorted(need):
+            ctx.violation("murphy_thetas is not the set of kinks on data with structure below 1e-8", case, [float(x) for x in sorted(need)],
+                          [float(x) for x in th] if th is not None else got[1])
+            continue
+        if model_available(ctx):
+            mt = ctx.model("c11_murphy_thetas", enc_list([enc_list([core.enc_nums([float(v) for v in fv]) for fv in fvals]), core.enc_nums([float(v) for v in ovals]),
+                                                          enc_str(fn), enc_opt(a if fn == "huber" else None, enc_num), enc_opt(delta, enc_num)]))
+            if core.is_err(mt) or core.dec_nums(mt) != th:
+                ctx.tie_fail("murphy_thetas vs model (fine structure)", case, [str(x) for x in th], str(mt)[:300])
+        # the curve of every case is affine between consecutive thetas (three collinear points), evaluated on the implementation
+        if len(th) >= 2 and fn != "quantile":
+            pts = []
+            for t1, t2 in zip(th, th[1:]):
+                pts += [t1, t1 + (t2 - t1) / 4, t1 + (t2 - t1) / 2]
+            alpha = rng.choice(ALPHAS)
+            r = C.murphy_score(fcsts[0], obs, [float(p) for p in pts], functional=fn, alpha=float(alpha), preserve_dims="all", **({"huber_a": float(a)} if fn == "huber" else {}))
+            tot = r["total"].transpose("theta", "x").values
+            for j in range(len(th) - 1):
+                for q in range(m):
+                    want = [orc_es(fn, alpha, a, fvals[0][q], ovals[q], pts[3 * j + e])[0] for e in range(3)]
+                    g = [float(tot[3 * j + e][q]) for e in range(3)]
+                    if any(abs(x - float(w)) > 1e-12 * max(1e-9, abs(float(w))) + 1e-22 for x, w in zip(g, want)) or 2 * want[1] != want[0] + want[2]:
+                        ctx.violation("Murphy curve not affine between consecutive thetas / differs from the definition (fine structure)",
+                                      dict(case, alpha=alpha, theta1=float(th[j]), theta2=float(th[j + 1]), case_index=q), [float(w) for w in want], g)
+                        break
+                else:
+                    continue
+                break
+
+
+def label_sets_corpus(ctx):
+    """forecast sources on different sets of coordinate labels: murphy_thetas uses every value of every source"""
+    C = S()
+    f1 = xr.DataArray([1.0, 5.0, 2.0], dims=["s"], coords={"s": [0, 1, 2]})
+    f2 = xr.DataArray([3.0, 0.5, 7.0], dims=["s"], coords={"s": [2, 3, 4]})
+    o = xr.DataArray([4.0, 6.0], dims=["s"], coords={"s": [1, 9]})
+    want = {"quantile": [0.5, 1, 2, 3, 4, 5, 6, 7], "expectile": [0.25, 0.5, 0.75, 1, 1.75, 2, 2.75, 3, 4, 4.75, 5, 6, 6.75, 7],
+            "huber": [0.25, 0.5, 0.75, 1, 1.75, 2, 2.75, 3, 3.5, 4, 4.5, 4.75, 5, 5.5, 6, 6.5, 6.75, 7]}
+    for fn in FUNCS:
+        kw = {"left_limit_delta": 0.25}
+        if fn == "huber":
+            kw["huber_a"] = 0.5
+        got = core.call_impl(C.murphy_thetas, [f1, f2], o, fn, **kw)
+        ctx.case(("labelsets", fn))
+        if got[0] != "ok" or [float(x) for x in got[1]] != [float(x) for x in want[fn]]:
+            ctx.violation("murphy_thetas loses kinks when the sources carry different coordinate labels", {"functional": fn, "sources": [gens.da_repr(f1), gens.da_repr(f2)],
+                          "obs": gens.da_repr(o), **kw}, want[fn], str(got[1])[:300])
+
 
 
 def model_available(ctx):
@@ -511,6 +714,9 @@ def run_without_model(ctx):
     guard_probes(ctx)
     diagram_props(ctx, ctx.n(40, 2500))
     oracle_means(ctx, ctx.n(60, 3000))
+    label_sets_corpus(ctx)
+    dtype_cases(ctx, ctx.n(60, 2000))
+    fine_thetas(ctx, ctx.n(40, 1500))
 
 
 def run(ctx):
@@ -520,9 +726,12 @@ def run(ctx):
         return run_without_model(ctx)
     kernel_grid(ctx)
     oracle_grid(ctx)
-    oracle_means(ctx, ctx.n(30, 1500))
+    oracle_means(ctx, ctx.n(100, 3000))
     ragged_corpus(ctx)
+    label_sets_corpus(ctx)
     guard_probes(ctx)
+    dtype_cases(ctx, ctx.n(60, 2000))
+    fine_thetas(ctx, ctx.n(40, 1500))
     diagram_props(ctx, ctx.n(40, 2500))
     murphy_cases(ctx, ctx.n(220, 12000))
     thetas_cases(ctx, ctx.n(200, 10000))
